@@ -2,7 +2,7 @@
 import os
 import core
 
-EXTRACTORS = ["ral_governance", "go_payloads", "go_admin"]
+EXTRACTORS = ["ral_governance", "go_payloads", "go_admin", "go_inject_glue", "ral_gov_glue"]
 
 HDR = ("From Coq Require Import Uint63.\nFrom Coq Require Import List ZArith Bool Arith Strings.Byte.\n"
        "From WH Require Import lib.Bytes lib.Wire gen.Extracted gen.ExtractedGov model.Vaa model.AlphConv model.Governance model.GovernanceRun.\n"
@@ -172,9 +172,106 @@ def monitors(ctx, rows, limit=14):
     return n
 
 
+# ------------------------------------------------------------------ X6: governance end to end
+HDR_E2E = ("From Coq Require Import Uint63.\nFrom Coq Require Import Strings.String.\nFrom Coq Require Import List ZArith Bool Arith Strings.Byte.\n"
+           "From WH Require Import lib.Bytes lib.Wire lib.Ralph gen.Extracted gen.ExtractedGov model.Vaa model.AlphConv model.Governance model.GovernanceRun "
+           "model.Processor model.System model.GovPipeline model.GovPipelineRun.\nImport ListNotations.\nOpen Scope Z_scope.\n")
+E2E_CODES = {1: "RPC outcome / error kind / digests", 3: "number of injected messages", 4: "published bytes", 5: "contract side (abort / bound values / receivedSequence)"}
+
+
+def e2e_vals(s, entries):
+    return [(n, v) for n, v in sorted((s.get("ral") or {}).items()) if n in entries.get(s.get("ral_fn", ""), [])]
+
+
+def ge2e(r, entries):
+    def gv(v):
+        return "RZ %s" % core.gz(int(v[2:])) if v.startswith("n:") else "RB %s" % B(v[2:])
+    sent = []
+    for s in r["sent"]:
+        abort = bool(s.get("ral_abort"))
+        vals = [] if abort else e2e_vals(s, entries)
+        if not abort and s.get("ral_fn") in ("submitContractUpgrade", "upgradeContract") and s["published"]:
+            # the interpreter does not run tokenBridgeFactory.parseContractUpgrade: third reading (py_parse_upgrade) of the payload on the wire
+            wire = bytes.fromhex(s["published"][0])
+            parts = py_parse_upgrade(wire[6 + 66 * wire[5] + 53:])
+            abort = parts is None
+            vals = [] if abort else [(n, "b:" + v.hex()) for n, v in zip(["newCode", "prevStateHash", "newEncodedImmutableFields", "newEncodedMutableFields"], parts)]
+        sent.append("ES %d %d %s %s %s %s %s" % (KINDS[s["kind"]], s["local"], core.gz(s["seq"]), core.glist(str(core.hash_bytes(p)) for p in s["published"]),
+                                                 core.gbool(abort), core.gz(int(s.get("ral_seq") or 0)), core.glist('("%s"%%string, %s)' % (n, gv(v)) for n, v in vals)))
+    signs = core.glist(core.glist("(%s, %s)" % (B(d), B(sg)) for d, sg in node) for node in r["signs"])
+    recs = core.glist("(%s, %s, %s)" % (B(d), B(sg), "Some %s" % B(a) if a else "None") for d, sg, a in r["rec"])
+    err = ERRS.get(r.get("err", ""), 0 if r["out"] == "ok" else 99)
+    return "EC %d %s %d %d %s %s %s %d %s %s %d %d %s %s" % (
+        r["gchain"], B(r["gaddr"]), r["ts"], r["gsi"], core.glist(gmsg(m) for m in r["msgs"]), core.glist(B(a) for a in r["owns"]),
+        core.glist(B(k) for k in r["keys"]), r["gsindex"], signs, recs, OUT[r["out"]], err, core.glist(B(d) for d in r["digests"]), core.glist(sent))
+
+
+def e2e(ctx, st):
+    """three real InjectGovernanceVAA calls -> three real Processor.Run loops -> published bytes -> .ral interpreter; model/GovPipeline.v re-evaluated in Coq"""
+    rc, out, trace = core.harness_pkg(ctx, "guardiand", "^TestVerifC15E2E$", env={"VERIF_RAL_DIR": os.path.join(core.REPO, "alephium", "contracts")})
+    rows = [r for r in core.read_jsonl(trace) if r.get("k") == "e2e"]
+    if rc != 0 or not rows:
+        ctx.problem("correspondence", "go harness C15 end to end", out[-1500:])
+        return
+    for r in rows:
+        for k in ("msgs", "sent", "digests", "signs", "rec", "mon"):
+            r[k] = r.get(k) or []
+    seen = {}
+    for r in rows:
+        for m in r["mon"]:
+            k, _, text = m.partition("|")
+            seen[k] = seen.get(k, 0) + 1
+            if seen[k] == 1 and len(seen) <= 10:
+                rp = request_of(dict(r, via="end to end"))
+                rp.update({"monitor": m, "network": r["shape"], "owns": r["owns"], "guardian_set": r["keys"], "outcome": r["out"], "error": r.get("errtext", r.get("err", "")),
+                           "injected": [{k2: v for k2, v in s.items() if not (k2 == "published" and sum(len(x) for x in v) > 1200)} for s in r["sent"]][:3]})
+                ctx.problem("monitor", text + " (end to end: real InjectGovernanceVAA -> 3 real processors -> contract reading)",
+                            "request %d (%s), %s" % (r["id"], r["tag"], r["shape"]), concrete=True, replay=rp, key=k)
+    hist = {}
+    for r in rows:
+        for s in r["sent"]:
+            k = "%s:%s" % (s["kind"], "abort" if s.get("ral_abort") else "executed")
+            hist[k] = hist.get(k, 0) + 1
+    ctx.cov["end_to_end"] = {"requests": len(rows), "rpc_outcomes": {o: sum(1 for r in rows if r["out"] == o) for o in ("ok", "err", "panic")},
+                             "messages_published_by_all_nodes": sum(1 for r in rows for s in r["sent"] if all(c >= 1 for c in s["by_node"])),
+                             "messages_injected": sum(len(r["sent"]) for r in rows), "kind_contract_hist": hist,
+                             "monitor_messages": sum(seen.values()), "monitor_classes": seen}
+    ctx.evaluations += len(rows)
+    rg, gl = st.get("ral_governance", {}), st.get("ral_gov_glue", {})
+    if not (rg.get("ok") and gl.get("ok")):
+        return
+    entries = {f: d["entries"] for f, d in rg["info"]["functions"].items()}
+    nsh = min(14, len(rows))
+    idx = sorted(range(len(rows)), key=lambda i: -sum(300 + 6 * s["plen"] for s in rows[i]["sent"]))
+    bins = [[] for _ in range(nsh)]
+    for n, i in enumerate(idx):
+        bins[n % nsh].append(i)
+    bins = [sorted(b) for b in bins if b]
+    texts = [HDR_E2E + "Definition cases : list ecase := %s.\nDefinition M := Eval vm_compute in map check_e2e cases.\nPrint M.\n"
+             % core.glist(ge2e(rows[i], entries) for i in b) for b in bins]
+    res = core.coq_eval_many(ctx, "cases_C15e", texts)
+    bad = []
+    for b, (ok, o) in zip(bins, res):
+        m = core.parse_print(o, "M")
+        vals = core.zlist(m) if (ok and m is not None) else None
+        if vals is None or len(vals) != len(b):
+            ctx.problem("correspondence", "cases_C15e evaluation", o[-800:])
+            return
+        bad += [(i, v) for i, v in zip(b, vals) if v != 0]
+    ctx.cov["end_to_end"]["requests_compared_with_pipeline_model"] = len(rows)
+    ctx.cov["end_to_end"]["model_mismatches"] = len(bad)
+    for i, code in sorted(bad)[:4]:
+        r = rows[i]
+        rp = request_of(dict(r, via="end to end"))
+        rp.update({"network": r["shape"], "owns": r["owns"], "guardian_set": r["keys"], "go_outcome": r["out"], "go_error": r.get("errtext", r.get("err", "")),
+                   "go_digests": r["digests"], "go_injected": [{k2: v for k2, v in s.items() if not (k2 == "published" and sum(len(x) for x in v) > 1200)} for s in r["sent"]][:3]})
+        ctx.problem("correspondence", "pipeline model differs from the real chain (request %d, %s): %s" % (r["id"], r["tag"], E2E_CODES.get(code, code)),
+                    "go: %s %s, %d messages injected" % (r["out"], r.get("err", ""), len(r["sent"])), concrete=False, replay=rp)
+
+
 def run(ctx):
     st = core.run_extract(ctx, EXTRACTORS)
-    core.coq_prove(ctx, "C15", extra_targets=["model/GovernanceRun.vo"])
+    core.coq_prove(ctx, "C15", extra_targets=["model/GovernanceRun.vo", "model/GovPipelineRun.vo"])
     if ctx.tier == "thorough":
         core.coq_thorough_audit(ctx, "C15")
     rc, out, trace = core.harness_pkg(ctx, "guardiand", "^TestVerifC15$",
@@ -232,6 +329,7 @@ def run(ctx):
                         replay=dict(c["req"], contract_function=c["fn"], payload_hex=c["p"][:600], interpreter=c["go_ral"]))
         ctx.cov["payloads_parsed_by_generated_ralph"] = len(rr)
         ctx.cov["ralph_translation_mismatches"] = len(badr)
+    e2e(ctx, st)
     ctx.assumptions = ["the Ralph parsers are translated statement by statement (assert!, let, assignments, if/return, byteVecSlice!, u256From<N>Byte!, size!, U256 arithmetic with "
                        "overflow abort); statements that do not parse the payload (migrate!, transferTokenFromSelf!, subContractId!, isAssetAddress!, blake2b! state check) are left "
                        "out and listed in the extractor info; byteVecToAddress! is the identity on the bytes",
